@@ -22,6 +22,8 @@ template <> struct Conv<VATA::BDDBottomUpTreeAut> {
 template <class Aut> std::string run(Toks& t) {
 	std::map<U, std::unique_ptr<Aut>> pool;
 	U n = t.num();
+	g_salt = 0;
+	if (t.v[t.i] == "SALT") { t.word(); g_salt = t.num(); }
 	std::ostringstream os; os << "R";
 	for (U s = 0; s < n; ++s) {
 		t.expect(";");
